@@ -20,7 +20,7 @@ from ..verdict import Acc
 from .gen import forced_seed
 
 SIZES = {"quick": dict(n_family=110, n_synth=30, cap=2000),
-         "thorough": dict(n_family=5000, n_synth=1500, cap=200000)}
+         "thorough": dict(n_family=1600, n_synth=400, cap=30000)}
 NEG = float("-inf")
 
 
